@@ -184,22 +184,27 @@ Proof. rewrite !sp_equals_true. congruence. Qed.
 
 Section SpKey.
   Variable render : Z -> str.
-  (* what is assumed of Timespan.SerializationString(): the text determines the duration *)
-  Hypothesis render_inj : forall a b, render a = render b -> a = b.
-  Hypothesis render_len : forall d, lenok (render d) = true.
+  (* what is needed of Timespan.SerializationString(): the text determines the duration (int64) and is a Go string;
+     proved for the modelled text sp_text in Proofs/KeysRichText.v *)
+  Hypothesis render_inj : forall a b, in_int64 a = true -> in_int64 b = true -> render a = render b -> a = b.
+  Hypothesis render_len : forall d, in_int64 d = true -> lenok (render d) = true.
 
-  Lemma sp_params_Key t : Forall Key (map vkey (sp_params render t)).
+  Lemma sp_params_Key t : sp_wf t = true -> Forall Key (map vkey (sp_params render t)).
   Proof.
+    unfold sp_wf. intros W. apply andb_true_iff in W. destruct W as [W1 W2].
     unfold sp_params. destruct (sp_max t =? max_int64), (sp_min t =? min_int64); cbn [map vkey];
-      repeat (apply Forall_cons || apply Forall_nil); first [apply Key_default|apply Key_str, render_len].
+      repeat (apply Forall_cons || apply Forall_nil); first [apply Key_default|apply Key_str, render_len; assumption].
   Qed.
 
-  Theorem sp_key_iff_eq a b : sp_key render a = sp_key render b <-> sp_equals a b = true.
+  Theorem sp_key_iff_eq a b : sp_wf a = true -> sp_wf b = true ->
+    (sp_key render a = sp_key render b <-> sp_equals a b = true).
   Proof.
-    rewrite sp_equals_true. split; [|intros ->; reflexivity].
+    intros Wa Wb. rewrite sp_equals_true. split; [|intros ->; reflexivity].
     unfold sp_key. intros H.
-    apply k_type_inj in H; [|apply name_ok_Timespan|apply name_ok_Timespan|apply sp_params_Key|apply sp_params_Key].
-    destruct H as [_ H]. revert H. unfold sp_params. destruct a as [la ha], b as [lb hb]. cbn [sp_min sp_max].
+    apply k_type_inj in H; [|apply name_ok_Timespan|apply name_ok_Timespan|apply sp_params_Key; assumption|apply sp_params_Key; assumption].
+    destruct H as [_ H]. revert H. unfold sp_params. destruct a as [la ha], b as [lb hb].
+    unfold sp_wf in Wa, Wb. cbn [sp_min sp_max] in *.
+    apply andb_true_iff in Wa. destruct Wa as [Wa1 Wa2]. apply andb_true_iff in Wb. destruct Wb as [Wb1 Wb2].
     destruct (ha =? max_int64) eqn:Ea; destruct (la =? min_int64) eqn:Ea';
     destruct (hb =? max_int64) eqn:Eb; destruct (lb =? min_int64) eqn:Eb';
       cbn [map vkey]; intros H; try discriminate H;
@@ -208,8 +213,8 @@ Section SpKey.
            | H : _ :: _ = _ :: _ |- _ => apply cons_inj in H; destruct H
            | H : k_default = k_str _ |- _ => exfalso; exact (kdefault_ne_kstr _ H)
            | H : k_str _ = k_default |- _ => exfalso; symmetry in H; exact (kdefault_ne_kstr _ H)
-           | H : k_str _ = k_str _ |- _ => apply k_str_inj in H; [|apply render_len|apply render_len]
-           | H : render _ = render _ |- _ => apply render_inj in H
+           | H : k_str _ = k_str _ |- _ => apply k_str_inj in H; [|apply render_len; assumption|apply render_len; assumption]
+           | H : render _ = render _ |- _ => apply render_inj in H; [|assumption|assumption]
            end; congruence.
   Qed.
 End SpKey.
